@@ -94,9 +94,17 @@ def arm_protocol(ctx, prog, ap, region, trackers, R, akey, where):
                 if not (cname.endswith("::new") or cname in (A.names(prog)["setup_new"], A.names(prog)["cleanup_new"])):
                     ctx.fail("C03.a", "%s:%s-unknown-constructor:%s" % (akey, which, cname), ap.loc(o[1]), "")
                     continue
-                fn_arg = ct["args"][1] if which == "setup" else ct["args"][0]
+                # the constructor's function argument (by what it is, not by position: `new(reactor, f)` or `new(f)`)
+                fn_args = [a_ for a_ in ct["args"] if any(k_ in ("fn", "closure") for k_, _n in reified_fn(ap, a_))]
+                if not fn_args:
+                    ctx.fail("C03.a", "%s:%s-fn-unresolved" % (akey, which), ap.loc(o[1]), "no function argument in %s" % cname)
+                    continue
+                fn_arg = fn_args[0]
                 if which == "setup":
-                    ids.append(("setup", origins(ap, ct["args"][0])))
+                    for a_ in ct["args"]:
+                        p_ = op_place(a_)
+                        if a_ is not fn_arg and p_ is not None and ap.local_ty(p_["l"]).endswith("::SystemCommand"):
+                            ids.append(("setup", origins(ap, a_)))
                 for kind, name in reified_fn(ap, fn_arg):
                     fb = prog.by_path.get(name) or (prog.find(name)[0] if prog.find(name) else None)
                     if fb is None:
